@@ -1565,8 +1565,17 @@ pub mod verif_hooks {
     /// senders that end in caller-owned queues and caller-provided custom senders.
     #[derive(Debug)]
     pub struct SendHarness {
-        ip: IpTransports,
+        ip: IpSockets,
         sender: TransportsSender,
+    }
+
+    /// Who owns the bound IP sockets of a [`SendHarness`].
+    #[derive(Debug)]
+    enum IpSockets {
+        /// Bound by `IpTransports::bind` directly.
+        Ip(IpTransports),
+        /// Bound by `Transports::bind` from a builder's transport configurations.
+        All(Box<super::Transports>),
     }
 
     impl SendHarness {
@@ -1592,7 +1601,44 @@ pub mod verif_hooks {
                 custom,
                 max_transmit_segments: std::num::NonZeroUsize::MIN,
             };
-            Ok(Self { ip, sender })
+            Ok(Self {
+                ip: IpSockets::Ip(ip),
+                sender,
+            })
+        }
+
+        /// Runs `Transports::bind` on a builder's transport configurations (see
+        /// `Builder::verif_bind_transports`) and wraps the resulting transports.
+        ///
+        /// Parts of the relay actor configuration, which is only used for relay
+        /// transports, are borrowed from `endpoint`.
+        pub(crate) fn from_transport_configs(
+            configs: &[super::TransportConfig],
+            endpoint: &crate::Endpoint,
+        ) -> io::Result<Self> {
+            let sock = endpoint.verif_sock();
+            let relay_actor_config = super::RelayActorConfig {
+                my_relay: super::HomeRelayWatch::default(),
+                secret_key: endpoint.secret_key().clone(),
+                dns_resolver: sock.dns_resolver().clone(),
+                proxy_url: None,
+                ipv6_reported: Default::default(),
+                tls_config: sock.tls_config.clone(),
+                metrics: sock.metrics.socket.clone(),
+                relay_map: super::RelayMap::empty(),
+            };
+            let metrics = EndpointMetrics::default();
+            let transports = super::Transports::bind(
+                configs,
+                relay_actor_config,
+                &metrics,
+                super::CancellationToken::new(),
+            )?;
+            let sender = transports.create_sender();
+            Ok(Self {
+                ip: IpSockets::All(Box::new(transports)),
+                sender,
+            })
         }
 
         /// A relay sender for [`Self::bind`] together with the queue it ends in.
@@ -1603,7 +1649,10 @@ pub mod verif_hooks {
 
         /// The bound sockets in routing order: (IPv4, IPv6).
         pub fn layout(&self) -> (FamilyLayout, FamilyLayout) {
-            let (v4, d4, v6, d6) = self.ip.verif_layout();
+            let (v4, d4, v6, d6) = match &self.ip {
+                IpSockets::Ip(ip) => ip.verif_layout(),
+                IpSockets::All(transports) => transports.ip.verif_layout(),
+            };
             (
                 FamilyLayout {
                     sockets: v4,
